@@ -1,4 +1,5 @@
 import XgiModel.Base
 import XgiModel.Proto
+import XgiModel.Net
 import XgiModel.Core.HG
 import XgiModel.Drive.HG
